@@ -23,6 +23,9 @@ Directive summary (lines starting with //@):
       //@rw mutself                   R3: `mut self` => rebinding `self_`
       //@rw enumerate                 R7: `for (i, PAT) in E.iter().enumerate() {`  (also .rev())
       //@rw wildcard_closure          R9: `|_|` => `|_e|`
+      //@rw name_iters                R13 as a rule: `for PAT in A..B` => `for PAT in iter: A..B` (ghost iterator name only)
+      //@rw deref_buffer A,B          R15 as a rule: A[..] => A.buffer[..], A.len() => A.buffer.len() for the listed variables
+      //@rw float_opassign A,B        R4 as a rule: `LHS op= RHS;` => `LHS = LHS op (RHS);` when LHS starts with a listed name
       //@subst KIND "A" => "B" [count N]   declared literal rewrite (KIND in R4,R5,R6,R7,R11)
       //@hole NAME from "TEXT" [occ N] [until "{"] => "REPLACEMENT"   R8: expression from after TEXT up to the
                                       statement's terminating ';' becomes REPLACEMENT; content recorded
@@ -481,6 +484,50 @@ class Extractor:
                 for mm in find_code(item, mask, r'\bself\b', body_open, body_close):
                     edits.append(Edit(mm.start(), mm.end(), 'self_', 'R3'))
                 pre_entry = [('        let mut self_ = self;', '<R3>', 0)]
+            elif head.startswith('rw deref_buffer '):
+                # R15 as a rule: for the listed variables (deref_buffer! newtypes) make the Deref explicit
+                names = [x.strip() for x in head[len('rw deref_buffer '):].split(',') if x.strip()]
+                for nm in names:
+                    for mm in find_code(item, mask, r'(?<![\w])(?<![^.]\.)' + re.escape(nm) + r'(?=\[)', body_open, body_close):
+                        edits.append(Edit(mm.end(), mm.end(), '.buffer', 'R15'))
+                    for mm in find_code(item, mask, r'(?<![\w])(?<![^.]\.)' + re.escape(nm) + r'(?=\.len\(\))', body_open, body_close):
+                        edits.append(Edit(mm.end(), mm.end(), '.buffer', 'R15'))
+                self.substs.append({'fn': qual, 'kind': 'R15', 'from': 'X[..] / X.len() for X in %s' % names, 'to': 'X.buffer[..] / X.buffer.len()', 'count': -1})
+            elif head.startswith('rw float_opassign '):
+                # R4 as a rule: `LHS op= RHS;` => `LHS = LHS op (RHS);` for statements whose LHS starts with a listed name
+                names = [x.strip() for x in head[len('rw float_opassign '):].split(',') if x.strip()]
+                pat = r'(?m)^([ \t]*)((?:\*\s*)?(?:' + '|'.join(re.escape(n_) for n_ in names) + r')\b[^;=\n]*?)\s*([-+*/])=\s*([^;]*);'
+                for mm in find_code(item, mask, pat, body_open, body_close):
+                    lhs, op, rhs = mm.group(2).strip(), mm.group(3), mm.group(4).strip()
+                    # the LHS text is duplicated; Deref insertion for listed buffers is repeated inside the replacement
+                    def fix(t):
+                        for d_ in directives:
+                            if d_['d'].startswith('rw deref_buffer '):
+                                for nm in [x.strip() for x in d_['d'][len('rw deref_buffer '):].split(',') if x.strip()]:
+                                    t = re.sub(r'(?<![\w])(?<![^.]\.)' + re.escape(nm) + r'(?=\[)', nm + '.buffer', t)
+                                    t = re.sub(r'(?<![\w])(?<![^.]\.)' + re.escape(nm) + r'(?=\.len\(\))', nm + '.buffer', t)
+                        return t
+                    rep = '%s%s = %s %s (%s);' % (mm.group(1), fix(lhs), fix(lhs), op, fix(rhs))
+                    edits.append(Edit(mm.start(), mm.end(), rep, 'R4'))
+                self.substs.append({'fn': qual, 'kind': 'R4', 'from': 'LHS op= RHS; with LHS starting with one of %s' % names, 'to': 'LHS = LHS op (RHS);', 'count': -1})
+            elif head == 'rw name_iters':
+                # R13 as a rule: every `for PAT in A..B` gets a named ghost iterator (`for PAT in iter: A..B`)
+                # so that spliced invariants can refer to iter.iter.end; the executable text is unchanged
+                cnt = 0
+                for lo_ in loop_offsets:
+                    if not item.startswith('for', lo_):
+                        continue
+                    ob_ = next_open_brace(item, mask, lo_ + 1, body_close)
+                    hdr = item[lo_:ob_]
+                    mm = re.match(r'for\s+[^;{}]*?\bin\s+', hdr)
+                    if not mm:
+                        continue
+                    rng = hdr[mm.end():].strip()
+                    if '..' not in rng or rng.startswith('(') or rng.startswith('iter:'):
+                        continue
+                    edits.append(Edit(lo_ + mm.end(), lo_ + mm.end(), 'iter: ', 'R13'))
+                    cnt += 1
+                self.substs.append({'fn': qual, 'kind': 'R13', 'from': 'for PAT in A..B', 'to': 'for PAT in iter: A..B', 'count': cnt})
             elif head == 'rw wildcard_closure':
                 for mm in find_code(item, mask, r'\|_\|', body_open, body_close):
                     edits.append(Edit(mm.start(), mm.end(), '|_e|', 'R9'))
@@ -577,7 +624,7 @@ class Extractor:
         cover_end = -1
         for e in edits:
             if e.start < cover_end:
-                if e.tag in ('R1', 'R2', 'R3', 'R9'):
+                if e.tag in ('R1', 'R2', 'R3', 'R9', 'R15'):
                     continue
                 raise SpecError('%s: overlapping edits at %d (%s)' % (qual, e.start, e.tag))
             pruned.append(e)
